@@ -78,14 +78,24 @@ TReset ==
     /\ case' = [case |-> Line.case, exec |-> Line.exec, chart |-> Line.chart]
     /\ l' = l + 1
 
+PropOf(p) == IF case.exec = "genc" /\ p \in {"C01", "C10", "C07"} THEN "C04"
+             ELSE IF case.exec = "pml" /\ p \in {"C01", "C10", "C07"} THEN "C06" ELSE p
+
 Verdict(prop, why, exp, got, extra) ==
     [case |-> case.case, chart |-> case.chart, exec |-> case.exec, line |-> l,
-     property |-> prop, why |-> why, action |-> StepName,
+     property |-> PropOf(prop), why |-> why, action |-> StepName,
      expected |-> exp, got |-> got, extra |-> extra]
+
+\* result codes of the generated C machine's uscxml_step()
+GencRet(r) == CASE r = "MICROSTEPPED" -> "OK" [] r = "MACROSTEPPED" -> "OK" [] r = "IDLE" -> "IDLE"
+                [] r = "FINISHED" -> "DONE" [] OTHER -> r
+
+Coarse == case.exec \in {"genc"}
 
 TStep ==
     /\ Line.k = "call" /\ Line.op = "step" /\ ~skip
-    /\ LET r    == StepResult
+    /\ LET r0   == IF Coarse THEN StepUntilEffective(C, Cur, <<>>, 60) ELSE StepResult
+           r    == IF Coarse THEN [r0 EXCEPT !.ret = GencRet(@)] ELSE r0
            exp  == Project(case.exec, r.m.atoms)
            got  == Project(case.exec, Line.atoms)
            ecfg == IdsOf(C, r.m.cfg)
